@@ -339,6 +339,35 @@ func Moves(v spec.Vec, f func(s, label string)) {
 	}
 }
 
+// BlockMoves calls f with every move of a contiguous block of two or more tokens to every
+// other position (single tokens are Moves' business): whole metric groups behind or in front
+// of one another, halves of groups, a group pushed into the middle of another.
+func BlockMoves(v spec.Vec, f func(s, label string)) {
+	segs := segsOf(v)
+	first := 0
+	if v.Ver != "" {
+		first = 1
+	}
+	toks := segs[first:]
+	n := len(toks)
+	for k := 2; k < n; k++ {
+		for a := 0; a+k <= n; a++ {
+			block := toks[a : a+k]
+			rest := append(append([]string(nil), toks[:a]...), toks[a+k:]...)
+			for to := 0; to <= len(rest); to++ {
+				if to == a {
+					continue
+				}
+				r := append([]string(nil), segs[:first]...)
+				r = append(r, rest[:to]...)
+				r = append(r, block...)
+				r = append(r, rest[to:]...)
+				f(strings.Join(r, "/"), "move:block")
+			}
+		}
+	}
+}
+
 // ByteRuns calls f with long runs of one "special" byte (UTF-8 continuation bytes, lead
 // bytes without continuation, invalid bytes, NUL, DEL) as the whole input, in front of and
 // behind a valid vector, and inside a token.
